@@ -259,9 +259,16 @@ func (w *elWorker) build() {
 			if err != nil {
 				return nil
 			}
-			// the threshold validators are held to is re-determined at once for the new N
+			// the threshold validators are held to is re-determined at once for the new N. In the middle of a
+			// block "active validators" and "their power" are only well defined if staking has not moved since
+			// the last EndBlock (the code mixes the current power index with last powers, and the next epoch
+			// settles it either way): judge only then.
 			sv, e := w.view(post.S.Ctx)
 			if e != nil {
+				return nil
+			}
+			if !w.settled(post.S.Ctx) {
+				w.stats.Count("topn-changed-mid-block-unsettled(dont-care)")
 				return nil
 			}
 			want := refMinPowerTopN(sv.activePowers, nn)
@@ -449,6 +456,29 @@ func (w *elWorker) view(ctx sdk.Context) (*stakeView, error) {
 		}
 	}
 	return sv, nil
+}
+
+// settled: every validator's current tokens agree with its last recorded power and bonded status.
+func (w *elWorker) settled(ctx sdk.Context) bool {
+	all, err := w.p.PApp.StakingKeeper.GetAllValidators(ctx)
+	if err != nil {
+		return false
+	}
+	for _, v := range all {
+		oper, _ := sdk.ValAddressFromBech32(v.OperatorAddress)
+		lp, err := w.p.PApp.StakingKeeper.GetLastValidatorPower(ctx, oper)
+		if err != nil {
+			lp = 0
+		}
+		cur := int64(0)
+		if v.Status == stakingtypes.Bonded && !v.Jailed {
+			cur = v.Tokens.Quo(math.NewInt(unit)).Int64()
+		}
+		if cur != lp {
+			return false
+		}
+	}
+	return true
 }
 
 // refMinPowerTopN: smallest m such that active validators with power >= m hold >= N% of the
